@@ -98,7 +98,7 @@ def feasible(sc):
 
 def observation(sc):
     o = {}
-    if len(sc.ops) == 1:
+    if len(sc.ops) == 1 and not hasattr(sc.op, 'ops'):
         o['problem'] = obs.problem_obs(sc.op)
     else:
         o['problems'] = [obs.problem_obs(op) for op in sc.ops]
